@@ -552,7 +552,10 @@ fn find_mapped_pat_id_from_token(
 ) -> Option<hir::PatId> {
     let mut current = token.parent();
     while let Some(node) = current {
-        if cst::nodes::Pattern::can_cast(node.kind()) {
+        // a shorthand field `S { x }` binds `x`: its variable pattern is recorded on the field node
+        if cst::nodes::Pattern::can_cast(node.kind())
+            || node.kind() == MySyntaxKind::STRUCT_PATTERN_FIELD
+        {
             let ptr = MySyntaxNodePtr::new(&node);
             if let Some(id) = index.pat_id(&ptr) {
                 return Some(id);
